@@ -215,6 +215,11 @@ def problems(draw, max_surveys=3, max_epochs=8, max_poly=3, n_rows=(4, 8), units
                 keys = draw(st.permutations([3, 11, 20, 7, 1][:ns]))
             spec["keys"] = list(keys)
     spec["time_input"] = draw(st.sampled_from(["float", "float", "tcb", "utc"]))
+    if draw(st.sampled_from([False, False, False, True])):
+        for s_ in sv:
+            lo_, hi_ = min(s_["t"]), max(s_["t"])
+            s_["bad"] = [{"t": rounded(lo_ + (hi_ - lo_ + 1.0) * draw(fl(-0.5, 1.2)), 9), "what": draw(st.sampled_from(["rv", "err"])),
+                          "val": draw(st.sampled_from(["nan", "inf", "-inf"]))} for _ in range(draw(st.integers(1, 2)))]
     spec["prior"] = draw(prior_spec(ns - 1, d["scale_kms"], d["baseline"], max_poly=max_poly, units=units))
     errs = [float(conv(e, s.get("err_unit", s["unit"]), "km/s")) for s in sv for e in s["err"]]
     nr = draw(st.integers(*n_rows))
@@ -237,6 +242,18 @@ def build_rvdata(s, time_input="float", t_ref=None, t_ref_scale="tcb"):
     from thejoker import RVData
 
     t = np.array(s["t"], dtype=float)
+    rv_ = np.array(s["rv"], dtype=float)
+    err_ = np.array(s["err"], dtype=float)
+    if s.get("bad"):
+        # further table rows whose velocity or uncertainty is not finite (RVData drops them; the problem is that of the
+        # finite rows), scattered among the others in catalogue order
+        bt = np.array([b["t"] for b in s["bad"]], dtype=float)
+        brv = np.array([float(b["val"]) if b["what"] == "rv" else 1.0 for b in s["bad"]])
+        ber = np.array([float(b["val"]) if b["what"] == "err" else float(np.median(err_)) for b in s["bad"]])
+        # (the finite rows keep their relative order, so that what RVData sorts is exactly the array the oracle mirrors)
+        for j_ in range(len(bt)):
+            pos = int(np.random.default_rng(len(t) + 7 + j_).integers(0, len(t) + 1))
+            t, rv_, err_ = np.insert(t, pos, bt[j_]), np.insert(rv_, pos, brv[j_]), np.insert(err_, pos, ber[j_])
     if time_input == "tcb":
         t_in = Time(t, format="mjd", scale="tcb")
     elif time_input == "utc":
@@ -249,8 +266,7 @@ def build_rvdata(s, time_input="float", t_ref=None, t_ref_scale="tcb"):
     elif t_ref is not None:
         tr = Time(t_ref, format="mjd", scale="tcb")
         kw["t_ref"] = tr.utc if t_ref_scale == "utc" else tr
-    return RVData(t=t_in, rv=np.array(s["rv"], dtype=float) * unit(s["unit"]),
-                  rv_err=np.array(s["err"], dtype=float) * unit(s.get("err_unit", s["unit"])), **kw)
+    return RVData(t=t_in, rv=rv_ * unit(s["unit"]), rv_err=err_ * unit(s.get("err_unit", s["unit"])), **kw)
 
 
 def build_data(spec):
